@@ -121,12 +121,21 @@ def run(ctx):
                                   f"{key} as {mode}")
                     continue
                 # auto-creating dict
-                fresh = CI(CI)
-                got = fresh[key]
-                if mode == "list" and got != []:
-                    res.violation("auto-creating-dict-disagrees-on-list-key", case, repr(got), "[]")
-                if mode == "single" and isinstance(got, list):
-                    res.violation("auto-creating-dict-treats-singleton-as-list", case, repr(got), "not a list")
+                # ... on a fresh dictionary and on a parsed parent that has no such child, the key read in every letter case
+                holders = [("fresh", CI(CI))]
+                try:
+                    holders.append(("parsed-parent-without-the-child", eng.loads(f"{parent.upper()} END")))
+                except Exception:
+                    pass
+                for hname, holder in holders:
+                    for spelled in (key, key.upper(), key.title(), key[:1] + key[1:].upper()):
+                        holder.pop(key, None)
+                        res.count("auto_created_reads")
+                        got = holder[spelled]
+                        if mode == "list" and (not isinstance(got, list) or got != []):
+                            res.violation("auto-creating-dict-disagrees-on-list-key", dict(case, holder=hname, key_as_read=spelled), repr(got), "[]")
+                        if mode == "single" and isinstance(got, list):
+                            res.violation("auto-creating-dict-treats-singleton-as-list", dict(case, holder=hname, key_as_read=spelled), repr(got), "not a list")
                 # printer + validator agree
                 out = eng.dumps(d)
                 rep = printcheck.check(d, out, dict(quote='"', newlinechar="\n", indent=4, unit="    ", spacer=None, end_comment=False, align_values=False))
